@@ -90,8 +90,15 @@ class Prop(BaseProp):
         b = Builder(rng, p_doc=0.5, max_depth=3, mkparam=mkparam, name_forms=True, trigger=trig, p_trigger=0.3,
                     kinds=["function", "macro", "function", "macro", "cpa", "cpa", "block", "ct_add_test", "cpp_class",
                            "plain", "set", "generic", "nested_defs", "nested_defs", "twin_defs"], max_items=7, compound_generic=False, p_clone=0.06, clone_toggle_doc=True)
+        if idx % 40 == 9:
+            b.max_params = rng.choice([25, 60, 130])        # scale: signatures far wider than any line
+            res.count("modules_with_very_long_parameter_lists")
         # names the pattern also matches: prefix the generated name
         mod = b.module()
+        if idx % 30 == 4:
+            # scale: definitions nested tens of levels deep, the outermost one parsing keyword arguments after them
+            mod.items.insert(rng.randint(0, len(mod.items)), b.deep_definitions(rng.choice([17, 33, 48]), documented_outer=rng.random() < 0.7))
+            res.count("modules_with_deeply_nested_definitions")
         for it in mod.walk():
             if it.kind in ("function", "macro") and not it.is_impl and rng.random() < 0.25:
                 nm = it.gt["name"]
